@@ -200,7 +200,7 @@ impl CosetTable {
     //@ rw R16 /-> usize/-> (r: usize)/
     fn canon(&self, c: usize) -> (r: usize)
         requires c < usize::MAX
-        ensures r == self.part.rep(c as int)
+        ensures r == self.part.rep(c as int), self.part.rep(r as int) == r
     {
         self.part.find(c)
     }
@@ -395,6 +395,10 @@ fn scan_both_ways(table: &CosetTable, w: &FreeWord, start: usize)
         // inside the table
         rows_ok(table) && start < table.table@.len() ==> res.0 < table.table@.len() && res.1 < table.table@.len(),
         res.2 >= 1 ==> table.col_ok(res.3 as int) && res.3 > isize::MIN && res.3 != 0,
+        // exactly one letter missing: the table is undefined on both sides of it
+        res.2 == 1 ==> table.act(res.0 as int, res.3 as int).is_none() && table.act(res.1 as int, -(res.3 as int)).is_none(),
+        // rows reached from a live row are live
+        rows_ok(table) && start < table.table@.len() && table.part.rep(start as int) == start ==> table.part.rep(res.0 as int) == res.0 && table.part.rep(res.1 as int) == res.1,
 {
     proof { w.lemma_reduced(); }
     let n = w.len();
@@ -418,6 +422,14 @@ fn scan_both_ways(table: &CosetTable, w: &FreeWord, start: usize)
             lemma_trace_rows_ok(table, start as int, inv_word(w@).take(j as int));
         }
         if i < n { assert(table.col_ok(w@[i as int] as int)); }
+        if n - i - j == 1 {
+            assert(inv_word(w@)[j as int] == (-(w@[n - 1 - j] as int)) as isize);
+            assert(w@[i as int] > isize::MIN);
+        }
+        if rows_ok(table) && start < table.table@.len() && table.part.rep(start as int) == start {
+            lemma_trace_live(table, start as int, w@.take(i as int));
+            lemma_trace_live(table, start as int, inv_word(w@).take(j as int));
+        }
     }
     (head, tail, n - i - j, if i < n { w[i] } else if n > 0 { w[0] } else { 0 })
 }
@@ -587,17 +599,226 @@ proof fn lemma_keep_rows(t0: &CosetTable, t1: &CosetTable, upto: int)
     }
 }
 
+// =====================================================================================================
+// C11: "every generator acts on the rows as a permutation whose inverse is the action of the inverse generator".
+// K: every defined entry c --g--> d has its back-entry at the representative of d, leading back to c up to the coincidences
+// still pending.  E: the equivalence generated by the partition and the pending pairs (x E y iff EVERY function that is
+// constant on the classes and on the pending pairs agrees on x and y).
+// =====================================================================================================
+pub open spec fn resp(t: &CosetTable, pend: Seq<(int, int)>, f: spec_fn(int) -> int) -> bool {
+    &&& forall|u: int| #[trigger] f(t.part.rep(u)) == f(u)
+    &&& forall|k: int| 0 <= k < pend.len() ==> f((#[trigger] pend[k]).0) == f(pend[k].1)
+}
+pub open spec fn eqv(t: &CosetTable, pend: Seq<(int, int)>, x: int, y: int) -> bool {
+    forall|f: spec_fn(int) -> int| #[trigger] resp(t, pend, f) ==> f(x) == f(y)
+}
+pub open spec fn back_ok(t: &CosetTable, pend: Seq<(int, int)>, c: int, g: int) -> bool {
+    t.raw(c, g) >= 0 ==> {
+        let d = t.part.rep(t.raw(c, g));
+        t.raw(d, -g) >= 0 && eqv(t, pend, t.raw(d, -g), c)
+    }
+}
+pub open spec fn kinv(t: &CosetTable, pend: Seq<(int, int)>) -> bool {
+    forall|c: int, g: int| 0 <= c < t.table@.len() && t.gen_ok(g) ==> #[trigger] back_ok(t, pend, c, g)
+}
+// on live rows the inverse generator undoes the generator
+pub open spec fn inv_consistent(t: &CosetTable) -> bool {
+    forall|k: int, g: int| canonical(t, k) && t.gen_ok(g) && (#[trigger] t.act(k, g)).is_some() ==> t.act(t.act(k, g).unwrap() as int, -g) == Some(k as usize)
+}
+
+proof fn lemma_eqv_equiv(t: &CosetTable, pend: Seq<(int, int)>, x: int, y: int, z: int)
+    ensures eqv(t, pend, x, x), eqv(t, pend, x, y) ==> eqv(t, pend, y, x), eqv(t, pend, x, y) && eqv(t, pend, y, z) ==> eqv(t, pend, x, z),
+        eqv(t, pend, t.part.rep(x), x),
+{
+    if eqv(t, pend, x, y) {
+        assert forall|f: spec_fn(int) -> int| #[trigger] resp(t, pend, f) implies f(y) == f(x) by { assert(f(x) == f(y)); }
+        if eqv(t, pend, y, z) {
+            assert forall|f: spec_fn(int) -> int| #[trigger] resp(t, pend, f) implies f(x) == f(z) by { assert(f(x) == f(y)); assert(f(y) == f(z)); }
+        }
+    }
+}
+
+// more pending pairs: more is equivalent
+proof fn lemma_eqv_mono(t: &CosetTable, p1: Seq<(int, int)>, p2: Seq<(int, int)>, x: int, y: int)
+    requires eqv(t, p1, x, y), forall|k: int| 0 <= k < p1.len() ==> has_pair(p2, #[trigger] p1[k])
+    ensures eqv(t, p2, x, y)
+{
+    assert forall|f: spec_fn(int) -> int| #[trigger] resp(t, p2, f) implies f(x) == f(y) by {
+        assert forall|k: int| 0 <= k < p1.len() implies f((#[trigger] p1[k]).0) == f(p1[k].1) by {
+            assert(has_pair(p2, p1[k]));
+            let j = choose|j: int| 0 <= j < p2.len() && #[trigger] p2[j] == p1[k];
+            assert(f(p2[j].0) == f(p2[j].1));
+        }
+        assert(resp(t, p1, f));
+    }
+}
+pub open spec fn has_pair(p: Seq<(int, int)>, x: (int, int)) -> bool { exists|j: int| 0 <= j < p.len() && #[trigger] p[j] == x }
+
+// nothing pending: equivalent means same class
+proof fn lemma_eqv_empty(t: &CosetTable, x: int, y: int)
+    requires rows_ok(t), eqv(t, Seq::<(int, int)>::empty(), x, y)
+    ensures t.part.rep(x) == t.part.rep(y)
+{
+    let f = |u: int| t.part.rep(u);
+    assert(resp(t, Seq::<(int, int)>::empty(), f)) by {
+        assert forall|u: int| #[trigger] f(t.part.rep(u)) == f(u) by { assert(t.part.rep(t.part.rep(u)) == t.part.rep(u)); }
+    }
+}
+
+proof fn lemma_kinv_inverse(t: &CosetTable)
+    requires rows_ok(t), kinv(t, Seq::<(int, int)>::empty())
+    ensures inv_consistent(t)
+{
+    assert forall|k: int, g: int| canonical(t, k) && t.gen_ok(g) && (#[trigger] t.act(k, g)).is_some() implies t.act(t.act(k, g).unwrap() as int, -g) == Some(k as usize) by {
+        assert(back_ok(t, Seq::<(int, int)>::empty(), k, g));
+        lemma_act_in_range(t, k, g);
+        let d = t.part.rep(t.raw(k, g));
+        lemma_eqv_empty(t, t.raw(d, -g), k);
+    }
+}
+
+pub open spec fn qpairs(q: Seq<(usize, usize)>) -> Seq<(int, int)> { Seq::new(q.len(), |k: int| (q[k].0 as int, q[k].1 as int)) }
+// columns g of rows a and b agree up to the pending coincidences (what merging a and b has to achieve before the union)
+pub open spec fn synced(t: &CosetTable, pend: Seq<(int, int)>, a: int, b: int, g: int) -> bool {
+    (t.raw(a, g) >= 0 || t.raw(b, g) >= 0) ==> t.raw(a, g) >= 0 && t.raw(b, g) >= 0 && eqv(t, pend, t.raw(a, g), t.raw(b, g))
+}
+pub open spec fn same_rows(t0: &CosetTable, t1: &CosetTable) -> bool {
+    t1.nr_gens == t0.nr_gens && t1.table@.len() == t0.table@.len()
+}
+
+// K survives a change of the pending pairs under which every admissible function stays admissible
+proof fn lemma_kinv_pend(t: &CosetTable, p1: Seq<(int, int)>, p2: Seq<(int, int)>)
+    requires kinv(t, p1), forall|f: spec_fn(int) -> int| #[trigger] resp(t, p2, f) ==> resp(t, p1, f)
+    ensures kinv(t, p2)
+{
+    assert forall|c: int, g: int| 0 <= c < t.table@.len() && t.gen_ok(g) implies #[trigger] back_ok(t, p2, c, g) by {
+        assert(back_ok(t, p1, c, g));
+        if t.raw(c, g) >= 0 {
+            let d = t.part.rep(t.raw(c, g));
+            assert forall|f: spec_fn(int) -> int| #[trigger] resp(t, p2, f) implies f(t.raw(d, -g)) == f(c) by { assert(resp(t, p1, f)); }
+        }
+    }
+}
+proof fn lemma_eqv_pend(t: &CosetTable, p1: Seq<(int, int)>, p2: Seq<(int, int)>, x: int, y: int)
+    requires eqv(t, p1, x, y), forall|f: spec_fn(int) -> int| #[trigger] resp(t, p2, f) ==> resp(t, p1, f)
+    ensures eqv(t, p2, x, y)
+{
+    assert forall|f: spec_fn(int) -> int| #[trigger] resp(t, p2, f) implies f(x) == f(y) by { assert(resp(t, p1, f)); }
+}
+
+// K survives copying the entry a --g--> (ag) to row b when b had none and a, b are pending to be merged
+proof fn lemma_kinv_set(t0: &CosetTable, t1: &CosetTable, pend: Seq<(int, int)>, a: int, b: int, g: int, ag: int)
+    requires rows_ok(t0), kinv(t0, pend), same_rows(t0, t1), t1.part == t0.part,
+        0 <= a < t0.table@.len(), 0 <= b < t0.table@.len(), t0.gen_ok(g),
+        t0.raw(a, g) >= 0, t0.raw(b, g) < 0, ag == t0.part.rep(t0.raw(a, g)), eqv(t0, pend, a, b),
+        t1.raw(b, g) == ag,
+        forall|c2: int, g2: int| 0 <= c2 < t0.table@.len() && t0.col_ok(g2) && !(c2 == b && g2 == g) ==> #[trigger] t1.raw(c2, g2) == t0.raw(c2, g2),
+    ensures kinv(t1, pend),
+        forall|x: int, y: int| eqv(t0, pend, x, y) ==> #[trigger] eqv(t1, pend, x, y),
+{
+    assert forall|f: spec_fn(int) -> int| #[trigger] resp(t1, pend, f) <==> resp(t0, pend, f) by { }
+    assert forall|x: int, y: int| eqv(t0, pend, x, y) implies #[trigger] eqv(t1, pend, x, y) by {
+        assert forall|f: spec_fn(int) -> int| #[trigger] resp(t1, pend, f) implies f(x) == f(y) by { assert(resp(t0, pend, f)); }
+    }
+    assert(0 <= ag < t0.table@.len() && t0.part.rep(ag) == ag) by { assert(-1 <= t0.raw(a, g) < t0.table@.len()); }
+    assert forall|c: int, h: int| 0 <= c < t1.table@.len() && t1.gen_ok(h) implies #[trigger] back_ok(t1, pend, c, h) by {
+        if c == b && h == g {
+            assert(back_ok(t0, pend, a, g));
+            assert(!(ag == b && -g == g));
+            assert(t1.raw(ag, -g) == t0.raw(ag, -g));
+            lemma_eqv_equiv(t0, pend, t0.raw(ag, -g), a, b);
+            assert(eqv(t1, pend, t1.raw(ag, -g), b));
+        } else {
+            assert(t1.raw(c, h) == t0.raw(c, h));
+            if t0.raw(c, h) >= 0 {
+                assert(back_ok(t0, pend, c, h));
+                let d = t0.part.rep(t0.raw(c, h));
+                assert(-1 <= t0.raw(c, h) < t0.table@.len());
+                assert(0 <= d < t0.table@.len());
+                assert(t0.raw(d, -h) >= 0);
+                assert(!(d == b && -h == g));
+                assert(t1.raw(d, -h) == t0.raw(d, -h));
+                assert(eqv(t1, pend, t1.raw(d, -h), c));
+            }
+        }
+    }
+}
+
+// K survives the union of a and b once all their columns are synced; the pending pair (a, b) is discharged by it
+proof fn lemma_kinv_unite(t0: &CosetTable, t1: &CosetTable, q: Seq<(int, int)>, a: int, b: int)
+    requires rows_ok(t0), rows_ok(t1), same_rows(t0, t1), kinv(t0, q.push((a, b))),
+        0 <= a < t0.table@.len(), 0 <= b < t0.table@.len(), t0.part.rep(a) == a, t0.part.rep(b) == b,
+        forall|g: int| t0.gen_ok(g) ==> #[trigger] synced(t0, q.push((a, b)), a, b, g),
+        united(|z: int| t0.part.rep(z), |z: int| t1.part.rep(z), a, b),
+        forall|c2: int, g2: int| 0 <= c2 < t0.table@.len() && t0.col_ok(g2) ==> #[trigger] t1.raw(c2, g2) == t0.raw(c2, g2),
+    ensures kinv(t1, q)
+{
+    let p = q.push((a, b));
+    let ra = |z: int| t0.part.rep(z);
+    let rb = |z: int| t1.part.rep(z);
+    assert(rb(a) == rb(b) && (rb(a) == a || rb(a) == b));
+    // a function admissible after the union was admissible before, with the pair (a, b) pending
+    assert forall|f: spec_fn(int) -> int| #[trigger] resp(t1, q, f) implies resp(t0, p, f) by {
+        assert forall|u: int| #[trigger] f(t0.part.rep(u)) == f(u) by {
+            let v = t0.part.rep(u);
+            assert(rb(u) == (if ra(u) == ra(a) || ra(u) == ra(b) { rb(a) } else { ra(u) }));
+            assert(rb(v) == (if ra(v) == ra(a) || ra(v) == ra(b) { rb(a) } else { ra(v) }));
+            assert(t0.part.rep(t0.part.rep(u)) == t0.part.rep(u));
+            assert(f(t1.part.rep(u)) == f(u)); assert(f(t1.part.rep(v)) == f(v));
+        }
+        assert(f(t1.part.rep(a)) == f(a)); assert(f(t1.part.rep(b)) == f(b));
+        assert forall|k: int| 0 <= k < p.len() implies f((#[trigger] p[k]).0) == f(p[k].1) by { if k < q.len() { assert(p[k] == q[k]); } }
+    }
+    assert forall|c: int, h: int| 0 <= c < t1.table@.len() && t1.gen_ok(h) implies #[trigger] back_ok(t1, q, c, h) by {
+        assert(t1.raw(c, h) == t0.raw(c, h));
+        if t0.raw(c, h) >= 0 {
+            assert(back_ok(t0, p, c, h));
+            let x = t0.raw(c, h);
+            assert(-1 <= x < t0.table@.len());
+            let d0 = t0.part.rep(x); let d1 = t1.part.rep(x);
+            assert(0 <= d0 < t0.table@.len() && 0 <= d1 < t0.table@.len());
+            assert(rb(x) == (if ra(x) == ra(a) || ra(x) == ra(b) { rb(a) } else { ra(x) }));
+            assert(t1.gen_ok(-h));
+            if d1 == d0 {
+                assert(t1.raw(d1, -h) == t0.raw(d0, -h));
+            } else {
+                assert(d0 == a || d0 == b);
+                assert(d1 == a || d1 == b);
+                assert(synced(t0, p, a, b, -h));
+                assert(t0.raw(a, -h) >= 0 && t0.raw(b, -h) >= 0 && eqv(t0, p, t0.raw(a, -h), t0.raw(b, -h)));
+                lemma_eqv_equiv(t0, p, t0.raw(a, -h), t0.raw(b, -h), c);
+                lemma_eqv_equiv(t0, p, t0.raw(b, -h), t0.raw(a, -h), c);
+                assert(eqv(t0, p, t0.raw(d1, -h), c));
+                assert(t1.raw(d1, -h) == t0.raw(d1, -h));
+            }
+            // eqv over t0 with q and over t1 with q: t1's admissible functions are admissible for t0 with p, so the transfer above
+            // is what is needed; restate for t1
+            assert forall|f: spec_fn(int) -> int| #[trigger] resp(t1, q, f) implies f(t1.raw(d1, -h)) == f(c) by {
+                assert(resp(t0, p, f));
+                assert(eqv(t0, p, t0.raw(d1, -h), c));
+            }
+        }
+    }
+}
+
 impl CosetTable {
     //@ begin src/fpgroups/cosets.rs :: impl CosetTable :: fn merge
     //@ rw R17 /for g in self\.all_gens\(\)$/for g in it: self.all_gens()/
+    #[verifier::spinoff_prover]
     #[verifier::exec_allows_no_decreases_clause]
     fn merge(&mut self, a: usize, b: usize)
         requires rows_ok(old(self)), a < old(self).table@.len(), b < old(self).table@.len()
         ensures rows_ok(final(self)), final(self).nr_gens == old(self).nr_gens, final(self).table@.len() == old(self).table@.len(),
             grows(old(self), final(self)),
+            // the inverse-generator bookkeeping survives the processing of all coincidences
+            kinv(old(self), Seq::<(int, int)>::empty()) ==> kinv(final(self), Seq::<(int, int)>::empty()),
     {
         let mut queue: VecDeque<(usize, usize)> = VecDeque::from([(a, b)]);
         let ghost mut qg: Seq<(usize, usize)> = queue@;
+        let ghost k0 = kinv(old(self), Seq::<(int, int)>::empty());
+        proof {
+            if k0 { lemma_kinv_pend(self, Seq::<(int, int)>::empty(), qpairs(queue@)); }
+        }
 
         while let Some((a, b)) = queue.pop_front()
             invariant
@@ -605,25 +826,68 @@ impl CosetTable {
                 rows_ok(self), self.nr_gens == old(self).nr_gens, self.table@.len() == old(self).table@.len(),
                 grows(old(self), self),
                 forall|k: int| 0 <= k < queue@.len() ==> (#[trigger] queue@[k]).0 < self.table@.len() && queue@[k].1 < self.table@.len(),
+                k0 ==> kinv(self, qpairs(queue@)),
+                k0 && queue@.len() == 0 ==> kinv(self, Seq::<(int, int)>::empty()),
+            ensures
+                rows_ok(self), self.nr_gens == old(self).nr_gens, self.table@.len() == old(self).table@.len(), grows(old(self), self),
+                k0 ==> kinv(self, Seq::<(int, int)>::empty()),
         {
+            let ghost a1 = a as int; let ghost b1 = b as int;
             proof {
                 assert(qg[0] == (a, b));
                 assert forall|k: int| 0 <= k < queue@.len() implies (#[trigger] queue@[k]).0 < self.table@.len() && queue@[k].1 < self.table@.len() by { assert(queue@[k] == qg[k + 1]); }
             }
             let a = self.canon(a);
             let b = self.canon(b);
+            let ghost qq = qpairs(queue@);
+            let ghost pp = qq.push((a as int, b as int));
+            proof {
+                assert(0 <= self.part.rep(a1) < self.table@.len() && 0 <= self.part.rep(b1) < self.table@.len());
+                if k0 {
+                    // the popped pair, with its members replaced by their representatives, stays pending while a and b are processed
+                    assert forall|f: spec_fn(int) -> int| #[trigger] resp(self, pp, f) implies resp(self, qpairs(qg), f) by {
+                        assert forall|k: int| 0 <= k < qpairs(qg).len() implies f((#[trigger] qpairs(qg)[k]).0) == f(qpairs(qg)[k].1) by {
+                            if k == 0 {
+                                assert(pp[qq.len() as int] == (a as int, b as int));
+                                assert(f(pp[qq.len() as int].0) == f(pp[qq.len() as int].1));
+                                assert(f(self.part.rep(a1)) == f(a1)); assert(f(self.part.rep(b1)) == f(b1));
+                            } else {
+                                assert(qg[k] == queue@[k - 1]);
+                                assert(pp[k - 1] == qq[k - 1]);
+                                assert(f(pp[k - 1].0) == f(pp[k - 1].1));
+                            }
+                        }
+                    }
+                    lemma_kinv_pend(self, qpairs(qg), pp);
+                }
+            }
 
+            proof {
+                if k0 && a == b {
+                    // the pair is trivial: dropping it changes nothing
+                    assert forall|f: spec_fn(int) -> int| #[trigger] resp(self, qq, f) implies resp(self, pp, f) by {
+                        assert forall|k: int| 0 <= k < pp.len() implies f((#[trigger] pp[k]).0) == f(pp[k].1) by { if k < qq.len() { assert(pp[k] == qq[k]); } }
+                    }
+                    lemma_kinv_pend(self, pp, qq);
+                }
+            }
             if a != b {
                 for g in it: self.all_gens()
                     invariant
                         rows_ok(self), self.nr_gens == old(self).nr_gens, self.table@.len() == old(self).table@.len(),
                         grows(old(self), self),
-                        a < self.table@.len(), b < self.table@.len(),
+                        a < self.table@.len(), b < self.table@.len(), a != b, self.part.rep(a as int) == a, self.part.rep(b as int) == b,
                         forall|k: int| 0 <= k < queue@.len() ==> (#[trigger] queue@[k]).0 < self.table@.len() && queue@[k].1 < self.table@.len(),
-                        forall|k: int| 0 <= k < it.seq().len() ==> self.gen_ok(#[trigger] it.seq()[k] as int),
+                        it.seq().len() == 2 * self.nr_gens,
+                        forall|k: int| 0 <= k < it.seq().len() ==> self.gen_ok(#[trigger] it.seq()[k] as int) && gen_index(self, it.seq()[k] as int) == k,
+                        k0 ==> kinv(self, qpairs(queue@).push((a as int, b as int))),
+                        k0 ==> forall|h: int| self.gen_ok(h) && gen_index(self, h) < it.index() ==> #[trigger] synced(self, qpairs(queue@).push((a as int, b as int)), a as int, b as int, h),
                 {
-                    proof { assert(self.gen_ok(it.seq()[it.index() as int] as int)); }
+                    let ghost idx = it.index() as int;
+                    proof { assert(self.gen_ok(it.seq()[idx] as int) && gen_index(self, it.seq()[idx] as int) == idx); }
                     let ghost q0 = queue@;
+                    let ghost p0 = qpairs(q0).push((a as int, b as int));
+                    let ghost s0 = *self;
                     if let Some(ag) = self.get(a, g) {
                         proof { lemma_act_in_range(self, a as int, g as int); }
                         if let Some(bg) = self.get(b, g) {
@@ -631,21 +895,103 @@ impl CosetTable {
                             queue.push_back((ag, bg));
                             proof {
                                 assert forall|k: int| 0 <= k < queue@.len() implies (#[trigger] queue@[k]).0 < self.table@.len() && queue@[k].1 < self.table@.len() by { if k < q0.len() { assert(queue@[k] == q0[k]); } }
+                                if k0 {
+                                    let p1 = qpairs(queue@).push((a as int, b as int));
+                                    // one more pending pair: every function admissible now was admissible before
+                                    assert forall|f: spec_fn(int) -> int| #[trigger] resp(self, p1, f) implies resp(self, p0, f) by {
+                                        assert forall|k: int| 0 <= k < p0.len() implies f((#[trigger] p0[k]).0) == f(p0[k].1) by {
+                                            if k < q0.len() { assert(p1[k] == p0[k]); assert(f(p1[k].0) == f(p1[k].1)); }
+                                            else { assert(p1[q0.len() as int + 1] == p0[k]); assert(f(p1[q0.len() as int + 1].0) == f(p1[q0.len() as int + 1].1)); }
+                                        }
+                                    }
+                                    lemma_kinv_pend(self, p0, p1);
+                                    assert forall|h: int| self.gen_ok(h) && gen_index(self, h) < idx + 1 implies #[trigger] synced(self, p1, a as int, b as int, h) by {
+                                        if gen_index(self, h) < idx {
+                                            assert(synced(self, p0, a as int, b as int, h));
+                                            if self.raw(a as int, h) >= 0 || self.raw(b as int, h) >= 0 {
+                                                lemma_eqv_pend(self, p0, p1, self.raw(a as int, h), self.raw(b as int, h));
+                                            }
+                                        } else {
+                                            assert(h == g);
+                                            // the new pair itself links the two entries
+                                            assert forall|f: spec_fn(int) -> int| #[trigger] resp(self, p1, f) implies f(self.raw(a as int, g as int)) == f(self.raw(b as int, g as int)) by {
+                                                assert(p1[q0.len() as int] == (ag as int, bg as int));
+                                                assert(f(p1[q0.len() as int].0) == f(p1[q0.len() as int].1));
+                                                assert(f(self.part.rep(self.raw(a as int, g as int))) == f(self.raw(a as int, g as int)));
+                                                assert(f(self.part.rep(self.raw(b as int, g as int))) == f(self.raw(b as int, g as int)));
+                                            }
+                                        }
+                                    }
+                                }
                             }
                         } else {
-                            let ghost s0 = *self;
                             self.set(b, g, ag);
-                            proof { assert(grows(&s0, self)); lemma_grows_trans(old(self), &s0, self); }
+                            proof {
+                                assert(grows(&s0, self)); lemma_grows_trans(old(self), &s0, self);
+                                if k0 {
+                                    assert(eqv(&s0, p0, a as int, b as int)) by {
+                                        assert forall|f: spec_fn(int) -> int| #[trigger] resp(&s0, p0, f) implies f(a as int) == f(b as int) by {
+                                            assert(p0[q0.len() as int] == (a as int, b as int));
+                                            assert(f(p0[q0.len() as int].0) == f(p0[q0.len() as int].1));
+                                        }
+                                    }
+                                    lemma_kinv_set(&s0, self, p0, a as int, b as int, g as int, ag as int);
+                                    assert forall|h: int| self.gen_ok(h) && gen_index(self, h) < idx + 1 implies #[trigger] synced(self, p0, a as int, b as int, h) by {
+                                        if gen_index(self, h) < idx {
+                                            assert(h != g);
+                                            assert(synced(&s0, p0, a as int, b as int, h));
+                                            assert(self.raw(a as int, h) == s0.raw(a as int, h) && self.raw(b as int, h) == s0.raw(b as int, h));
+                                        } else {
+                                            assert(h == g);
+                                            lemma_eqv_equiv(&s0, p0, s0.raw(a as int, g as int), s0.raw(a as int, g as int), s0.raw(a as int, g as int));
+                                            lemma_eqv_equiv(&s0, p0, ag as int, s0.raw(a as int, g as int), s0.raw(a as int, g as int));
+                                            assert(self.raw(a as int, g as int) == s0.raw(a as int, g as int));
+                                        }
+                                    }
+                                }
+                            }
                         }
                     } else if let Some(bg) = self.get(b, g) {
                         proof { lemma_act_in_range(self, b as int, g as int); }
-                        let ghost s0 = *self;
                         self.set(a, g, bg);
-                        proof { assert(grows(&s0, self)); lemma_grows_trans(old(self), &s0, self); }
+                        proof {
+                            assert(grows(&s0, self)); lemma_grows_trans(old(self), &s0, self);
+                            if k0 {
+                                assert(eqv(&s0, p0, b as int, a as int)) by {
+                                    assert forall|f: spec_fn(int) -> int| #[trigger] resp(&s0, p0, f) implies f(b as int) == f(a as int) by {
+                                        assert(p0[q0.len() as int] == (a as int, b as int));
+                                        assert(f(p0[q0.len() as int].0) == f(p0[q0.len() as int].1));
+                                    }
+                                }
+                                lemma_kinv_set(&s0, self, p0, b as int, a as int, g as int, bg as int);
+                                assert forall|h: int| self.gen_ok(h) && gen_index(self, h) < idx + 1 implies #[trigger] synced(self, p0, a as int, b as int, h) by {
+                                    if gen_index(self, h) < idx {
+                                        assert(h != g);
+                                        assert(synced(&s0, p0, a as int, b as int, h));
+                                        assert(self.raw(a as int, h) == s0.raw(a as int, h) && self.raw(b as int, h) == s0.raw(b as int, h));
+                                    } else {
+                                        assert(h == g);
+                                        lemma_eqv_equiv(&s0, p0, s0.raw(b as int, g as int), s0.raw(b as int, g as int), s0.raw(b as int, g as int));
+                                        lemma_eqv_equiv(&s0, p0, bg as int, s0.raw(b as int, g as int), s0.raw(b as int, g as int));
+                                        assert(self.raw(b as int, g as int) == s0.raw(b as int, g as int));
+                                    }
+                                }
+                            }
+                        }
+                    }
+                    proof {
+                        if k0 && s0.raw(a as int, g as int) < 0 && s0.raw(b as int, g as int) < 0 {
+                            // neither row has the entry: nothing to do for this generator
+                            assert forall|h: int| self.gen_ok(h) && gen_index(self, h) < idx + 1 implies #[trigger] synced(self, p0, a as int, b as int, h) by {
+                                if gen_index(self, h) >= idx { assert(h == g); }
+                            }
+                        }
                     }
                 }
                 let ghost r0 = self.part;
                 let ghost t0 = *self;
+                let ghost qq2 = qpairs(queue@);
+                let ghost pp2 = qq2.push((a as int, b as int));
                 self.part.unite(a, b);
                 proof {
                     assert(self.table == t0.table && self.nr_gens == t0.nr_gens);
@@ -685,9 +1031,19 @@ impl CosetTable {
                         }
                     }
                     lemma_grows_trans(old(self), &t0, self);
+                    if k0 {
+                        assert forall|g: int| t0.gen_ok(g) implies #[trigger] synced(&t0, pp2, a as int, b as int, g) by {
+                            let j = gen_index(&t0, g);
+                            assert(0 <= j < 2 * t0.nr_gens);
+                        }
+                        lemma_kinv_unite(&t0, self, qq2, a as int, b as int);
+                    }
                 }
             }
-            proof { qg = queue@; }
+            proof {
+                qg = queue@;
+                if queue@.len() == 0 { assert(qpairs(queue@) =~= Seq::<(int, int)>::empty()); }
+            }
         }
     }
     //@ end
@@ -707,6 +1063,55 @@ proof fn lemma_trace_rows_ok(t: &CosetTable, row: int, w: Seq<isize>)
     }
 }
 
+proof fn lemma_trace_live(t: &CosetTable, row: int, w: Seq<isize>)
+    requires rows_ok(t), 0 <= row < t.table@.len(), t.part.rep(row) == row, cols_ok(t, w), trace(t, row, w).is_some()
+    ensures t.part.rep(trace(t, row, w).unwrap() as int) == trace(t, row, w).unwrap()
+    decreases w.len()
+{
+    if w.len() > 0 {
+        let w0 = w.drop_last();
+        assert forall|j: int| 0 <= j < w0.len() implies t.col_ok(#[trigger] w0[j] as int) by { assert(w0[j] == w[j]); }
+        assert(t.col_ok(w[w.len() - 1] as int));
+        lemma_act_in_range(t, trace(t, row, w0).unwrap() as int, w.last() as int);
+    }
+}
+
+// K survives join(c, d, g) of two live rows (d possibly the new row) whose entries c.g and d.g^-1 were undefined
+proof fn lemma_kinv_join(t0: &CosetTable, t1: &CosetTable, c: int, d: int, g: int)
+    requires rows_ok(t0), rows_ok(t1), kinv(t0, Seq::<(int, int)>::empty()), t1.part == t0.part, t1.nr_gens == t0.nr_gens,
+        t1.table@.len() >= t0.table@.len(), 0 <= c < t0.table@.len(), 0 <= d < t1.table@.len(), d <= t0.table@.len(), t0.gen_ok(g),
+        t0.part.rep(c) == c, t0.part.rep(d) == d,
+        t0.raw(c, g) < 0, d < t0.table@.len() ==> t0.raw(d, -g) < 0,
+        t1.raw(c, g) == d, t1.raw(d, -g) == c,
+        forall|c2: int, g2: int| 0 <= c2 < t1.table@.len() && t0.col_ok(g2) && !(c2 == c && g2 == g) && !(c2 == d && g2 == -g)
+            ==> #[trigger] t1.raw(c2, g2) == (if c2 < t0.table@.len() { t0.raw(c2, g2) } else { -1 }),
+    ensures kinv(t1, Seq::<(int, int)>::empty())
+{
+    let e = Seq::<(int, int)>::empty();
+    assert forall|f: spec_fn(int) -> int| #[trigger] resp(t1, e, f) <==> resp(t0, e, f) by { }
+    assert forall|x: int, h: int| 0 <= x < t1.table@.len() && t1.gen_ok(h) implies #[trigger] back_ok(t1, e, x, h) by {
+        if x == c && h == g {
+            lemma_eqv_equiv(t1, e, c, c, c);
+        } else if x == d && h == -g {
+            lemma_eqv_equiv(t1, e, d, d, d);
+        } else {
+            assert(t1.raw(x, h) == (if x < t0.table@.len() { t0.raw(x, h) } else { -1 }));
+            if t1.raw(x, h) >= 0 {
+                assert(back_ok(t0, e, x, h));
+                let y = t0.raw(x, h);
+                assert(-1 <= y < t0.table@.len());
+                let d0 = t0.part.rep(y);
+                assert(0 <= d0 < t0.table@.len());
+                assert(t0.raw(d0, -h) >= 0);
+                assert(!(d0 == c && -h == g));
+                assert(!(d0 == d && -h == -g));
+                assert(t1.raw(d0, -h) == t0.raw(d0, -h));
+                assert forall|f: spec_fn(int) -> int| #[trigger] resp(t1, e, f) implies f(t1.raw(d0, -h)) == f(x) by { assert(resp(t0, e, f)); }
+            }
+        }
+    }
+}
+
 //@ begin src/fpgroups/cosets.rs :: - :: fn scan_and_connect
 //@ rw R16 /\) -> Option<\(usize, isize\)>/) -> (r: Option<(usize, isize)>)/
 fn scan_and_connect(
@@ -716,6 +1121,8 @@ fn scan_and_connect(
     ensures rows_ok(final(table)), final(table).nr_gens == old(table).nr_gens, final(table).table@.len() == old(table).table@.len(),
         r.is_some() ==> r.unwrap().0 < final(table).table@.len(),
         grows(old(table), final(table)),
+        // scanning from a live row keeps the inverse-generator bookkeeping
+        old(table).part.rep(start as int) == start && kinv(old(table), Seq::<(int, int)>::empty()) ==> kinv(final(table), Seq::<(int, int)>::empty()),
 {
     let (head, tail, gap, c) = scan_both_ways(table, w, start);
 
@@ -726,6 +1133,10 @@ fn scan_and_connect(
             assert(table.table@.len() == t0.table@.len());
             assert forall|c2: int, g2: int| 0 <= c2 < table.table@.len() && table.col_ok(g2) implies -1 <= #[trigger] table.raw(c2, g2) < table.table@.len() by {
                 if !(c2 == head && g2 == c) && !(c2 == tail && g2 == -(c as int)) { assert(table.raw(c2, g2) == t0.raw(c2, g2)); }
+            }
+            if t0.part.rep(start as int) == start && kinv(&t0, Seq::<(int, int)>::empty()) {
+                assert(t0.raw(head as int, c as int) < 0 && t0.raw(tail as int, -(c as int)) < 0);
+                lemma_kinv_join(&t0, table, head as int, tail as int, c as int);
             }
         }
         Some((head, c))
@@ -781,6 +1192,8 @@ impl CosetTable {
         ensures exists|nw: Seq<int>| compacted(self, &result, nw),
             // a table whose live rows are complete compacts to a complete table
             all_complete(self) ==> complete_table(&result),
+            // ... in which inverse generators undo generators if they did on the live rows
+            all_complete(self) && inv_consistent(self) ==> valid(&result),
     {
         // number the classes in the order of their first members, so that the
         // class of row 0 (the subgroup itself) stays row 0
@@ -935,6 +1348,27 @@ impl CosetTable {
                     assert(res_entry(&result, x, g) >= 0);
                     assert(x < result.table@.len());
                     assert(result.act(nw[k], g) == Some(nw[c] as usize));
+                }
+                if inv_consistent(self) {
+                    assert forall|r: int, g: int| 0 <= r < result.table@.len() && result.gen_ok(g) implies
+                        (#[trigger] result.act(r, g)).is_some() && result.act(r, g).unwrap() < result.table@.len()
+                        && result.act(result.act(r, g).unwrap() as int, -g) == Some(r as usize) by {
+                        let k = n2o[r];
+                        assert(old_to_new@[k] == r);
+                        assert(canonical(self, k));
+                        assert(nw[k] == r);
+                        assert(row_complete(self, k));
+                        assert(self.raw(k, g) >= 0);
+                        lemma_act_in_range(self, k, g);
+                        let c = self.act(k, g).unwrap() as int;
+                        assert(canonical(self, c));
+                        assert(self.act(c, -g) == Some(k as usize));
+                        assert(result.act(nw[k], g) == Some(nw[c] as usize));
+                        assert(self.gen_ok(-g));
+                        assert(result.act(nw[c], -g) == (match self.act(c, -g) { Some(c2) => Some(nw[c2 as int] as usize), None => None }));
+                        assert(0 <= nw[c] < self.table@.len());
+                    }
+                    assert(valid(&result));
                 }
             }
         }
@@ -1135,8 +1569,9 @@ pub fn coset_table(
         all_within(relators@, nr_gens as int), all_within(subgroup_gens@, nr_gens as int),
     ensures result.wf(), result.nr_gens == nr_gens, result.table@.len() >= 1,
         forall|x: int| #[trigger] result.part.rep(x) == x,
-        // C11: "every generator acts on the rows": every entry is defined and is a row of the table
-        complete_table(&result),
+        // C11: "every generator acts on the rows as a permutation whose inverse is the action of the inverse generator": every entry is
+        // defined and is a row of the table, and the inverse generator leads back
+        complete_table(&result), valid(&result),
         // C11: "every relator traced from every row returns to that row" ...
         forall|m: int, r: int| 0 <= m < relators@.len() && 0 <= r < result.table@.len() ==> #[trigger] trace(&result, r, relators@[m]@) == Some(r as usize),
         // ... "and every generator of H traced from row 0 returns to row 0"
@@ -1148,6 +1583,7 @@ pub fn coset_table(
         assert(all_within(relators@, nr_gens as int));
         assert forall|u: FreeWord| #[trigger] rels@.contains(u) implies within(u@, nr_gens as int) by { }
         assert(rows_ok(&table));
+        assert(kinv(&table, Seq::<(int, int)>::empty())) by { assert forall|c: int, g: int| 0 <= c < table.table@.len() && table.gen_ok(g) implies #[trigger] back_ok(&table, Seq::<(int, int)>::empty(), c, g) by { assert(table.raw(0, g) == -1); } }
     }
 
     let mut __i: usize = 0;
@@ -1157,7 +1593,8 @@ pub fn coset_table(
             all_within(subgroup_gens@, nr_gens as int),
             forall|u: FreeWord| #[trigger] rels@.contains(u) ==> within(u@, nr_gens as int),
             forall|k: int| 0 <= k < __i && #[trigger] canonical(&table, k) ==> row_complete(&table, k),
-        ensures rows_ok(&table), table.nr_gens == nr_gens, all_complete(&table),
+            kinv(&table, Seq::<(int, int)>::empty()),
+        ensures rows_ok(&table), table.nr_gens == nr_gens, all_complete(&table), kinv(&table, Seq::<(int, int)>::empty()),
     {
         let i = __i; __i += 1;
         if i >= table.len() {
@@ -1182,7 +1619,8 @@ pub fn coset_table(
                 forall|j: int| 0 <= j < __gens@.len() ==> table.gen_ok(#[trigger] __gens@[j] as int) && gen_index(&table, __gens@[j] as int) == j,
                 forall|g2: int| #[trigger] table.gen_ok(g2) ==> 0 <= gen_index(&table, g2) < __gens@.len() && __gens@[gen_index(&table, g2)] == g2,
                 prog(&table, i as int, __gens@, __gk as int),
-            ensures rows_ok(&table), table.nr_gens == nr_gens, i < table.table@.len(),
+                kinv(&table, Seq::<(int, int)>::empty()),
+            ensures rows_ok(&table), table.nr_gens == nr_gens, i < table.table@.len(), kinv(&table, Seq::<(int, int)>::empty()),
                 forall|k: int| 0 <= k < i && #[trigger] canonical(&table, k) ==> row_complete(&table, k),
                 canonical(&table, i as int) ==> row_complete(&table, i as int),
         {
@@ -1210,6 +1648,9 @@ pub fn coset_table(
                     assert(rows_ok(&table));
                     lemma_prog_grows(&t0, &table, i as int, __gens@, __gk - 1);
                     assert(table.raw(i as int, g as int) == n);
+                    assert(t0.raw(i as int, g as int) < 0);
+                    assert(t0.part.rep(n as int) == n);
+                    lemma_kinv_join(&t0, &table, i as int, n as int, g as int);
                     assert(prog(&table, i as int, __gens@, __gk as int));
                 }
 
@@ -1224,6 +1665,7 @@ pub fn coset_table(
                         __gk <= __gens@.len(),
                         forall|j: int| 0 <= j < __gens@.len() ==> table.gen_ok(#[trigger] __gens@[j] as int),
                         prog(&table, i as int, __gens@, __gk as int),
+                        kinv(&table, Seq::<(int, int)>::empty()),
                 {
                     for w in it: __set_items(&rels)
                         invariant rows_ok(&table), table.nr_gens == nr_gens, i < table.table@.len(), r < table.table@.len(),
@@ -1233,6 +1675,7 @@ pub fn coset_table(
                             __gk <= __gens@.len(),
                             forall|j: int| 0 <= j < __gens@.len() ==> table.gen_ok(#[trigger] __gens@[j] as int),
                             prog(&table, i as int, __gens@, __gk as int),
+                            kinv(&table, Seq::<(int, int)>::empty()),
                     {
                         proof { assert(rels@.contains(*it.seq()[it.index() as int])); assert(within(w@, nr_gens as int)); }
                         if w.len() > 0 && w[0] == h {
@@ -1257,6 +1700,7 @@ pub fn coset_table(
                             __gk <= __gens@.len(),
                             forall|j: int| 0 <= j < __gens@.len() ==> table.gen_ok(#[trigger] __gens@[j] as int),
                             prog(&table, i as int, __gens@, __gk as int),
+                            kinv(&table, Seq::<(int, int)>::empty()),
                     {
                         proof {
                             let m = it.index() as int;
@@ -1297,24 +1741,24 @@ pub fn coset_table(
     // that was not discovered).  Check every relator at every live row and
     // merge until the table is consistent.
     loop
-        invariant_except_break rows_ok(&table), table.nr_gens == nr_gens, all_complete(&table),
+        invariant_except_break rows_ok(&table), table.nr_gens == nr_gens, all_complete(&table), kinv(&table, Seq::<(int, int)>::empty()),
             all_within(subgroup_gens@, nr_gens as int),
             forall|u: FreeWord| #[trigger] rels@.contains(u) ==> within(u@, nr_gens as int),
-        ensures rows_ok(&table), table.nr_gens == nr_gens, all_complete(&table),
+        ensures rows_ok(&table), table.nr_gens == nr_gens, all_complete(&table), kinv(&table, Seq::<(int, int)>::empty()),
             // the last pass found every due word closing at every row, and changed nothing
             pass_done(&table, rels@, subgroup_gens@, table.table@.len() as int),
     {
         let mut changed = false;
 
         for i in iti: 0..table.len()
-            invariant rows_ok(&table), table.nr_gens == nr_gens, all_complete(&table),
+            invariant rows_ok(&table), table.nr_gens == nr_gens, all_complete(&table), kinv(&table, Seq::<(int, int)>::empty()),
                 iti.seq().len() == table.table@.len(),
                 all_within(subgroup_gens@, nr_gens as int),
                 forall|u: FreeWord| #[trigger] rels@.contains(u) ==> within(u@, nr_gens as int),
                 !changed ==> pass_done(&table, rels@, subgroup_gens@, i as int),
         {
             for w in it: __words_at(&rels, subgroup_gens, i)
-                invariant rows_ok(&table), table.nr_gens == nr_gens, all_complete(&table), i < table.table@.len(), iti.seq().len() == table.table@.len(),
+                invariant rows_ok(&table), table.nr_gens == nr_gens, all_complete(&table), kinv(&table, Seq::<(int, int)>::empty()), i < table.table@.len(), iti.seq().len() == table.table@.len(),
                     all_within(subgroup_gens@, nr_gens as int),
                     forall|u: FreeWord| #[trigger] rels@.contains(u) ==> within(u@, nr_gens as int),
                     forall|j: int| 0 <= j < it.seq().len() ==> rels@.contains(*#[trigger] it.seq()[j]) || (i == 0 && is_sub(subgroup_gens@, *it.seq()[j])),
@@ -1366,10 +1810,12 @@ pub fn coset_table(
         }
     }
 
+    proof { lemma_kinv_inverse(&table); }
     let __r = table.compact();
     proof {
         let nw = choose|nw: Seq<int>| compacted(&table, &__r, nw);
         assert(complete_table(&__r));
+        assert(valid(&__r));
         assert forall|m: int, r: int| 0 <= m < relators@.len() && 0 <= r < __r.table@.len() implies #[trigger] trace(&__r, r, relators@[m]@) == Some(r as usize) by {
             assert(is_row(&__r, r));
             let k = choose|k: int| canonical(&table, k) && #[trigger] nw[k] == r;
@@ -1433,6 +1879,20 @@ fn canary_merge_contract(t: &mut CosetTable)
 {
     t.merge(1, 2);
 }
+
+// the table coset_table returns meets the precondition of coset_representative: the two contracts chain (must verify)
+fn witness_table_then_representatives(relators: &Vec<FreeWord>, subs: &Vec<FreeWord>)
+    requires all_within(relators@, 3), all_within(subs@, 3)
+{
+    let t = coset_table(3, relators, subs);
+    let reps = coset_representative(&t);
+    assert(reps@.contains_key(0));
+}
+
+proof fn canary_kinv_is_satisfiable(t: &CosetTable)
+    requires rows_ok(t), kinv(t, Seq::<(int, int)>::empty()), t.nr_gens == 1, t.table@.len() == 2, t.raw(0, 1) == 1, t.raw(1, -1) == 0
+    ensures false
+{}
 
 proof fn canary_valid_is_satisfiable(t: &CosetTable)
     requires valid(t), t.nr_gens == 1, t.table@.len() == 2
